@@ -514,6 +514,13 @@ class DataElementParser:
         elements = []
         while self.offset < end_offset:
             elements.append(self.parse_next())
+            if self.offset > end_offset:
+                # An element that extends beyond its container would be parsed again
+                # by every enclosing level (exponential work in the nesting depth).
+                raise InvalidPacketError(
+                    f"SDP data element ends at offset {self.offset}, "
+                    f"beyond the end of its container ({end_offset})"
+                )
         self.depth -= 1
         return elements
 
